@@ -3873,8 +3873,9 @@ impl M2Model {
                 }
 
                 // Calculate the offset in the data section where this texture's definition was written
-                // The texture definitions start at (header.textures.offset - base_data_offset)
-                let base_data_offset = std::mem::size_of::<M2Header>();
+                // The texture definitions start at (header.textures.offset - base_data_offset),
+                // where base_data_offset is the size of the header as written to the file
+                let base_data_offset = header_size;
                 let def_offset_in_data = (header.textures.offset as usize - base_data_offset)
                     + (i * texture_def_size)
                     + 8;
